@@ -159,6 +159,12 @@ def getField (h : Heap N) (obj key : V N) : Action N :=
 def getFieldString (h : Heap N) (obj : V N) (key : String) : Action N :=
   getFieldLoop h (.str key) GLua.Generated.MaxTableGetLoop obj
 
+/-- vm.go OP_SELF (`obj:name(…)`): `selfobj := R(B); v := L.getFieldString(selfobj, L.rkString(C)); R(A) := v;
+    R(A+1) := selfobj` — the method is fetched by the ordinary index path, for every kind of receiver; the call
+    that follows (OP_CALL / OP_TAILCALL) gets the receiver as first argument. -/
+def opSelf (h : Heap N) (selfobj : V N) (key : String) : Action N :=
+  getFieldString h selfobj key
+
 /-- body of the loop of `setField`. -/
 def setFieldStep (h : Heap N) (curobj key value : V N) : Action N :=
   let present : Option Nat :=
